@@ -1,6 +1,7 @@
 import UtlsVerif.Line
 import UtlsVerif.Quic
 import UtlsVerif.QuicSys
+import UtlsVerif.QuicQueue
 /-! Driver side of C23: monitors on the real client's call history / event trace, the model's
 prediction (completion vs error, HelloRetryRequest) and trace inclusion of the observed history in
 the `Quic` transition system instantiated with the regenerated skeleton (`Quic.theSys`). -/
@@ -171,27 +172,46 @@ def invLabels (op : Op) (minVerOK : Bool) : List Label :=
   | .close => [.invClose]
   | .next => []
 
-/-- one observed call: invoke, explore, keep the states where the call has returned the observed
-result with exactly the observed events; then the events are drained. -/
-def stepCall (sys : Sys) (cancelAllowed : Bool) (minVerOK : Bool) (states : List St) (c : Call) : List St :=
+/-- model events still to be observed from entry `c` on (own events first) -/
+def futureEvs (cs : List Call) : List Ev := cs.flatMap fun c => modelEvs c.evs
+
+/-- one observed history entry.
+* an API call (`start`, `hd<l>`, `stp`, `close`): invoke, explore, keep the states where the call has
+  returned the observed result. With the draining pump the entry also carries the events drained
+  after it (NextEvent until QUICNoEvent): they must be exactly the events emitted and not yet
+  consumed. With the other pumps the call is bare and the emitted events must be a prefix of what
+  later `ne` entries return.
+* `ne` = one NextEvent call: a modelled event must be the next unconsumed event of the model's
+  trace; `[]` (QUICNoEvent) requires that none is left; crypto data (not modelled) is skipped. -/
+def stepCall (sys : Sys) (cancelAllowed : Bool) (minVerOK : Bool) (drainPump : Bool) (states : List St)
+    (c : Call) (future : List Ev) : List St :=
+  if c.name = "ne" then
+    match c.evs with
+    | [] => states.filter fun s => s.seen == s.a.trace.length
+    | [.ev e] => (states.filter fun s => s.a.trace[s.seen]? == some e).map fun s => { s with seen := s.seen + 1 }
+    | [.write _ _] => states
+    | _ => []
+  else
   match opOfName c.name with
   | none => []
   | some op =>
     let obs := modelEvs c.evs
     let okv := c.res == "ok"
     let labels := if cancelAllowed then internalLabels ++ [.envCancel] else internalLabels
-    let keep : St → Bool := fun s => (s.a.trace.drop s.seen).isPrefixOf obs
+    -- (events may stay unconsumed when the history ends without a drain: either list may be the longer one)
+    let keep : St → Bool := fun s =>
+      (s.a.trace.drop s.seen).isPrefixOf future || future.isPrefixOf (s.a.trace.drop s.seen)
     let started := (states.flatMap fun s => (invLabels op minVerOK).filterMap (next sys s)).filter keep
     let all := explore sys labels keep 400 started started.eraseDups
     let fin := all.filter fun s =>
-      s.caller == .idle && s.ret == some (op, okv) && s.a.trace.drop s.seen == obs
-    (fin.map fun s => { s with seen := s.a.trace.length, ret := none }).eraseDups
+      s.caller == .idle && s.ret == some (op, okv) && (!drainPump || s.a.trace.drop s.seen == obs)
+    (fin.map fun s => { s with seen := (if drainPump then s.a.trace.length else s.seen), ret := none }).eraseDups
 
-def simulate (sys : Sys) (cancelAllowed minVerOK : Bool) : List St → List Call → Nat → Option Nat
+def simulate (sys : Sys) (cancelAllowed minVerOK drainPump : Bool) : List St → List Call → Nat → Option Nat
   | _, [], _ => none
   | states, c :: r, i =>
-    let states' := stepCall sys cancelAllowed minVerOK states c
-    if states'.isEmpty then some i else simulate sys cancelAllowed minVerOK states' r (i + 1)
+    let states' := stepCall sys cancelAllowed minVerOK drainPump states c (futureEvs (c :: r))
+    if states'.isEmpty then some i else simulate sys cancelAllowed minVerOK drainPump states' r (i + 1)
 
 /-! ## the family -/
 
@@ -227,7 +247,9 @@ def quicHs (c : Case) : Verdict :=
     let cls : Class := if startErr then .startErr else if cdone && sdone then .complete else .hsErr
     let hrr := flag o "hrr" false
     let chunked := (i.getD "chunk" "0") != "0"
-    let tag := s!"{cls.str},{sc.inject}{if sc.injected then "+" else ""},{if hrr then "hrr" else "nohrr"},{if chunked then "chunk" else "whole"},{if sc.golang then "golang" else if sc.raw then "raw" else if spec.startsWith "q-" then "parrot" else "custom"}"
+    let pump := i.getD "pump" "drain"
+    let nch := (o.getD "nch" "0").toNat?.getD 0
+    let tag := s!"{cls.str},{sc.inject}{if sc.injected then "+" else ""},{if hrr then "hrr" else "nohrr"},{if chunked then "chunk" else "whole"},{pump},{if sc.golang then "golang" else if sc.raw then "raw" else if spec.startsWith "q-" then "parrot" else "custom"}"
     -- ---- monitors on the implementation's output (the property)
     match calls.find? (fun c => c.res == "timeout") with
     | some c => .propFail tag s!"call-hangs:{c.name}"
@@ -242,15 +264,23 @@ def quicHs (c : Case) : Verdict :=
     if tpn > 1 then .propFail tag "transport-parameters-delivered-twice" else
     if cdone && (tpn != 1 || o.getD "tpeq" "-" != "1") then .propFail tag "transport-parameters-not-delivered-exactly-once" else
     if cdone && !(trace.contains .hd && trace.contains (.sr .app)) then .propFail tag "completed-without-HandshakeDone/1-RTT-read-secret" else
+    -- every byte NextEvent returned was fed to the peer and accepted (and vice versa) unless a side failed
+    if !sc.injected && cls == .complete && o.getD "cerr" "ok" == "ok" && o.getD "serr" "ok" == "ok" &&
+        (o.getD "cwb" "" != o.getD "sgb" "" || o.getD "swb" "" != o.getD "cgb" "") then
+      .propFail tag s!"bytes-returned-by-NextEvent-differ-from-bytes-the-peer-consumed cwb={o.getD "cwb" "?"} sgb={o.getD "sgb" "?"} swb={o.getD "swb" "?"} cgb={o.getD "cgb" "?"}" else
+    -- the Initial-level byte stream is whole handshake messages: one ClientHello, two after a HelloRetryRequest
+    if o.getD "rest" "0" != "0" then .propFail tag "bytes-lost:truncated-handshake-message-in-the-Initial-stream" else
+    if sc.expect == [.complete] && hrr && nch < 2 then
+      .propFail tag s!"bytes-lost:second-ClientHello-written-after-HelloRetryRequest-never-returned-by-NextEvent nch={nch}" else
     if sc.expect == [.complete] && cls != .complete then
-      .propFail tag s!"not-completed cerr={o.getD "cerr" "?"} serr={o.getD "serr" "?"}" else
+      .propFail tag s!"not-completed pump={pump} cerr={o.getD "cerr" "?"} serr={o.getD "serr" "?"}" else
     -- ---- the model's prediction
     if !sc.expect.contains cls then .diff tag s!"class={(sc.expect.map Class.str)}" else
     if cls == .complete && hrr != sc.hrr then .diff tag s!"hrr={sc.hrr}" else
     if !OrderOK (modelEvs ((listOf (o.getD "sev" "-")).map parseEv)) then .diff tag "server-event-order" else
     -- ---- trace inclusion in the transition system over the regenerated skeleton
     let cancelAllowed := sc.inject == "cancel" || sc.inject == "precancel"
-    match simulate theSys cancelAllowed (!sc.minverFails) [{}] calls 0 with
+    match simulate theSys cancelAllowed (!sc.minverFails) (pump == "drain") [{}] calls 0 with
     | some k => .diff tag s!"history-not-a-behaviour-of-the-model at-call={k}"
     | none => .ok tag
 
@@ -341,9 +371,69 @@ def quicShape (_ : Case) : Verdict :=
     .propFail "skeleton" "hello-shape:session-id-assignment-not-guarded-by-quic==nil"
   else if !(Gen.QuicShape.ccsQuicReturnsFirst && Gen.QuicShape.ccsDirectWrites == 0) then
     .propFail "skeleton" "hello-shape:dummy-CCS-not-suppressed-for-quic"
+  else if !Gen.QuicShape.nextEventClearsSlot then
+    .propFail "skeleton" "event-queue:NextEvent-does-not-overwrite-the-returned-slot-with-QUICEvent{}_(later_data_of_the_same_level_is_coalesced_into_a_consumed_slot_and_lost)"
+  else if !Gen.QuicShape.writeCoalescesLastSameLevel then .diff "skeleton" "quicWriteCryptoData-coalescing-condition-changed"
   else if !shapesOK then .diff "skeleton" "api-op-sequences-differ-from-the-transcribed-ones"
   else .ok "skeleton"
 
-def families : List (String × (Case → Verdict)) := [("quic_hs", quicHs), ("quic_shape", quicShape)]
+/-! ## family `quic_queue`: the event queue alone -/
+
+open QuicQueue in
+def parseQOp (t : String) : Option QuicQueue.Op :=
+  if t = "N" then some .next
+  else if t = "D" then some (.emit 7 0 [])
+  else if t.startsWith "P:" then (unhex (t.drop 2).toString).map fun d => .emit 4 0 d
+  else if t.startsWith "SW" then (t.drop 2).toString.toNat?.map fun l => .emit 2 l [0xaa]
+  else if t.startsWith "SR" then (t.drop 2).toString.toNat?.map fun l => .emit 1 l [0xaa]
+  else if t.startsWith "W" then
+    match (t.drop 1).toString.splitOn ":" with
+    | [l, d] => do
+      let l ← l.toNat?
+      let d ← unhex d
+      pure (.write l d)
+    | _ => none
+  else none
+
+open QuicQueue in
+def slotStr : Option Slot → String
+  | none => "-"
+  | some ⟨.write, l, d⟩ => s!"W{l}:{hex d}"
+  | some ⟨.other 2, l, _⟩ => s!"SW{l}"
+  | some ⟨.other 1, l, _⟩ => s!"SR{l}"
+  | some ⟨.other 4, _, d⟩ => s!"P:{hex d}"
+  | some ⟨.other 7, _, _⟩ => "D"
+  | some ⟨.other n, _, _⟩ => s!"K{n}"
+  | some ⟨.none, _, _⟩ => "Z"
+
+/-- bytes the implementation's NextEvent returned at level `l`, in order -/
+def implDelivered (l : Nat) (res : List String) : Option Wire.Bytes :=
+  (res.filterMap fun t =>
+    if t.startsWith s!"W{l}:" then some (unhex (t.drop 3).toString) else none).foldl
+      (fun acc x => do let a ← acc; let b ← x; pure (a ++ b)) (some [])
+
+open QuicQueue in
+def quicQueue (c : Case) : Verdict :=
+  match (listOf (c.input.getD "ops" "-")).mapM parseQOp with
+  | none => .bad "quic_queue: bad ops"
+  | some ops =>
+    if (c.output.get "out").isSome then .bad s!"quic_queue: harness outcome {c.output.getD "out" "?"}" else
+    let impl := listOf (c.output.getD "res" "-")
+    let (qEnd, outs) := run true ops {}
+    let model := outs.map slotStr
+    let nW := (ops.filter fun o => match o with | .write _ _ => true | _ => false).length
+    let afterNext := (ops.zip (ops.drop 1)).any fun (a, b) => a == .next && (match b with | .write _ _ => true | _ => false)
+    let tag := s!"w={min nW 4},{if afterNext then "write-after-next" else "plain"},{if outs.contains none then "drained" else "pending"}"
+    -- monitor (no_bytes_lost on the implementation's output): once the queue was drained, the bytes
+    -- returned at each level are the bytes written at that level
+    let drainedAtEnd := ops.getLast? == some .next && impl.getLast? == some "-"
+    let lost := [0, 1, 2, 3].find? fun l => drainedAtEnd && implDelivered l impl != some (written l ops)
+    match lost with
+    | some l => .propFail tag s!"bytes-lost level={l} written={hex (written l ops)} returned={(implDelivered l impl).map hex}"
+    | none =>
+      if impl != model then .diff tag s!"res={",".intercalate model} pending={(pendingBytes 0 qEnd).length}"
+      else .ok tag
+
+def families : List (String × (Case → Verdict)) := [("quic_hs", quicHs), ("quic_shape", quicShape), ("quic_queue", quicQueue)]
 
 end Drv.C23
